@@ -171,8 +171,8 @@ theorem C02_scatter_gather_symmetric (shape : List Nat) (sup : List (List Int ×
     ScatterGatherSym shape sup :=
   scatterGatherSym_of_symStar shape sup hs hlen hss
 
-/-- the Boolean check `symStarB` (enumerate every offset between 0 and each member) is sound for `SymStar` -/
-theorem C02_symstar_check (sup : List (List Int × Int)) (h : symStarB sup = true) : SymStar sup :=
+/-- the Boolean check `C14.symStarB` (enumerate every offset between 0 and each member) is sound for `SymStar` -/
+theorem C02_symstar_check (sup : List (List Int × Int)) (h : C14.symStarB sup = true) : SymStar sup :=
   symStar_of_check sup h
 
 /-! non-vacuity: a 2×3 uint8 image clear of the limits with the default cross (entries 1, so erosion
@@ -190,8 +190,8 @@ example :
 
 /-! the elements of the property's quantifier are symmetric and star-shaped: the 2-D cross, the 3×3 and
     5×3 boxes, the 3-D cross, the disk of radius 2 (the 5×5 array produced by `disk(2)`) -/
-example : symStarB (support [3, 3] #[0, 1, 0, 1, 1, 1, 0, 1, 0] true) = true := by decide
-example : symStarB (support [3, 3] #[1, 1, 1, 1, 1, 1, 1, 1, 1] true) = true := by decide
-example : symStarB (support [5, 3] (Array.replicate 15 1) false) = true := by decide
-example : symStarB (support [3, 3, 3] (crossElem 3 1) true) = true := by decide
-example : symStarB (support [5, 5] (diskElem 2 2) true) = true := by decide
+example : C14.symStarB (support [3, 3] #[0, 1, 0, 1, 1, 1, 0, 1, 0] true) = true := by decide
+example : C14.symStarB (support [3, 3] #[1, 1, 1, 1, 1, 1, 1, 1, 1] true) = true := by decide
+example : C14.symStarB (support [5, 3] (Array.replicate 15 1) false) = true := by decide
+example : C14.symStarB (support [3, 3, 3] (crossElem 3 1) true) = true := by decide
+example : C14.symStarB (support [5, 5] (diskElem 2 2) true) = true := by decide
